@@ -22,6 +22,26 @@ Hypothesis `RepIndep sp HS HA` (`Proofs/PointObjSim.lean`): the value-level func
 hidden states of values to hidden states of the group results, for **every** representation — C06/C07's theorems
 under N2T (open finding K1 is exactly the failure of this on curves with a point of order 2).
 
+* `pickle_roundtrip_key`, `pickle_roundtrip_key_shared`, `pickle_roundtrip_skey` — the same for `VerifyingKey` and `SigningKey`
+  objects: the whole object graph (generator, point, key, secret multiplier) is restored as new objects denoting the same
+  values (instance with evaluated serialisations / signatures / verifications: `C19g.toy_key_pickle`).
+
+**Domain of the theorems** (what `Inv` — through `RepIndep` — demands of a heap; outside it there is NO theorem here):
+
+* *one curve per heap* (`hs_curve`): all point objects of a related heap lie on the curve `sp.c`, and their values in one
+  subgroup ⟨G⟩ of odd order n (`Props/C19g.lean`), with declared order n or none.  **Mixed-curve heaps** — objects of two
+  different curves side by side, where `==` must answer `False` and `+` must raise — are not covered by `step_refines` /
+  `history_independent`; they are exercised by the harness only (walks with a second curve through a common point, walks
+  with equal-but-distinct `CurveFp` objects: correspondence with the model + value-semantics search).
+* *no identity-valued stored objects* (`hs_ne`, `ha_ne`, `hs_nz`): a stored `PointJacobi` / legacy `Point` cell denotes a
+  non-zero group element and its triple has Y ≠ 0, Z ≠ 0.  The identity occurs as the `INFINITY` singleton and its
+  pickled / copied twins only — which is all the library's own arithmetic ever returns (`coordsOut` maps Y = 0 or Z = 0
+  to `INFINITY`).  A user-constructed `PointJacobi(curve, x, 0, z)` or `(x, y, 0)` (legal, and built by the pinned tests)
+  living in the heap is **not** covered: the value-level theorems for such operands are C06/C07's `PJRep0` family
+  (`Proofs/GroupObj0.lean`, `Proofs/MulAdd0.lean`), single operations, no heap.  The harness meets such objects only on
+  the curves with a point of order 2 (stored triples with y = 0: the K1 domain).
+* K1: curves whose subgroup has an element of order 2 are outside (`RepIndep` fails there; open known finding).
+
 `Covered`: all 24 public operations of the model — reads, `scale`, `to_affine`, `from_affine`, `-`, `double`, `+`, `*`,
 `mul_add`, `==`, pickle, `copy.copy`, key construction, `precompute` (lazy and eager), `to_string`, `verifies`, key `==`,
 signing-key construction, `sign` — except arithmetic whose operands are all legacy `Point`s (`P + Q`, `k * P`, `-P`,
@@ -406,5 +426,89 @@ theorem pickle_roundtrip_value (_hyp : RepIndep sp HS HA) {h : Heap} {ah : AHeap
   show (run (pickleObj (.obj i)) Out.ref h).2 = _ ∧ Inv HS HA (run (pickleObj (.obj i)) Out.ref h).1 _
   rw [habs] at e1 e2
   exact ⟨by rw [e1, hi.length], e2⟩
+
+/-- the abstract result of pickling a key whose generator and point are `PointJacobi` objects: the object graph is copied —
+a copy of the generator, a copy of the point (one copy if they are the same object), a key cell referring to the copies -/
+theorem apickle_key (ah : AHeap G) (k gi qi : Nat) (Gv Qv : G) (go qo : Option Int) (gg qg : Bool)
+    (hk : ah[k]? = some (.key (.obj gi) (.obj qi))) (hg : ah[gi]? = some (.pj Gv go gg)) (hq : ah[qi]? = some (.pj Qv qo qg)) :
+    arun (apickleObj (G := G) (.obj k)) Out.ref ah =
+      if qi = gi then (ah ++ [.pj Gv go gg, .key (.obj ah.length) (.obj ah.length)], .ref (.obj (ah.length + 1)))
+      else (ah ++ [.pj Gv go gg, .pj Qv qo qg, .key (.obj ah.length) (.obj (ah.length + 1))], .ref (.obj (ah.length + 2))) := by
+  have hq' : (ah ++ [AObj.pj Gv go gg])[qi]? = some (.pj Qv qo qg) := by
+    rw [List.getElem?_append_left (by
+      rcases Nat.lt_or_ge qi ah.length with h | h
+      · exact h
+      · rw [List.getElem?_eq_none h] at hq; cases hq)]
+    exact hq
+  unfold arun apickleObj
+  simp only [AM.bind_eq, agetHeap_bind_run, hk]
+  by_cases e : qi = gi
+  · subst e
+    simp [acopyKey, acopyPoint, AM.bind_eq, AM.bind, agetHeap_bind_run, AM.getHeap, hk, hg, AM.alloc, AM.pure]
+  · have e' : ¬ (Ref.obj qi = Ref.obj gi) := fun h => e (Ref.obj.inj h)
+    simp [acopyKey, acopyPoint, AM.bind_eq, AM.bind, agetHeap_bind_run, AM.getHeap, hk, hg, hq', AM.alloc, AM.pure, e, e']
+
+/-- **pickle_roundtrip_key** — `pickle.loads(pickle.dumps(vk))` of a `VerifyingKey` yields a *new* key object whose generator
+and point are *new* `PointJacobi` objects denoting the same group elements with the same declared orders and flags: the
+concrete heap afterwards (whatever hidden state — coordinate triples, tables — the originals had) is again related to the
+abstract heap extended by copies of the value cells and a key cell referring to them.  By `history_independent` every later
+operation on the restored key (`to_string` in all encodings, `verifies`, `precompute`, `==`) therefore returns what the
+abstract machine returns on these values, i.e. what the original returns. -/
+theorem pickle_roundtrip_key (_hyp : RepIndep sp HS HA) {h : Heap} {ah : AHeap G} (hi : Inv HS HA h ah) (k gi qi : Nat)
+    (Gv Qv : G) (go qo : Option Int) (gg qg : Bool) (hne : qi ≠ gi)
+    (hk : ah[k]? = some (.key (.obj gi) (.obj qi))) (hg : ah[gi]? = some (.pj Gv go gg)) (hq : ah[qi]? = some (.pj Qv qo qg)) :
+    (step h (.pickle (.obj k))).2 = .ref (.obj (h.length + 2)) ∧
+    Inv HS HA (step h (.pickle (.obj k))).1
+      (ah ++ [.pj Gv go gg, .pj Qv qo qg, .key (.obj h.length) (.obj (h.length + 1))]) := by
+  obtain ⟨e1, e2⟩ := run_of_outcome (f := Out.ref) (pickleObj_sim (HS := HS) (HA := HA) (.obj k) h ah hi)
+  have habs := apickle_key ah k gi qi Gv Qv go qo gg qg hk hg hq
+  rw [if_neg hne] at habs
+  show (run (pickleObj (.obj k)) Out.ref h).2 = _ ∧ Inv HS HA (run (pickleObj (.obj k)) Out.ref h).1 _
+  rw [habs] at e1 e2
+  exact ⟨by rw [e1, hi.length], by rw [hi.length]; exact e2⟩
+
+/-- the same when the key's point *is* its generator object (d = 1 and the caller passed the generator itself): one copy -/
+theorem pickle_roundtrip_key_shared (_hyp : RepIndep sp HS HA) {h : Heap} {ah : AHeap G} (hi : Inv HS HA h ah) (k gi : Nat)
+    (Gv : G) (go : Option Int) (gg : Bool)
+    (hk : ah[k]? = some (.key (.obj gi) (.obj gi))) (hg : ah[gi]? = some (.pj Gv go gg)) :
+    (step h (.pickle (.obj k))).2 = .ref (.obj (h.length + 1)) ∧
+    Inv HS HA (step h (.pickle (.obj k))).1 (ah ++ [.pj Gv go gg, .key (.obj h.length) (.obj h.length)]) := by
+  obtain ⟨e1, e2⟩ := run_of_outcome (f := Out.ref) (pickleObj_sim (HS := HS) (HA := HA) (.obj k) h ah hi)
+  have habs := apickle_key ah k gi gi Gv Gv go go gg gg hk hg hg
+  rw [if_pos rfl] at habs
+  show (run (pickleObj (.obj k)) Out.ref h).2 = _ ∧ Inv HS HA (run (pickleObj (.obj k)) Out.ref h).1 _
+  rw [habs] at e1 e2
+  exact ⟨by rw [e1, hi.length], by rw [hi.length]; exact e2⟩
+
+theorem apickle_skey (ah : AHeap G) (sk : Nat) (d : Int) (k gi qi : Nat) (Gv Qv : G) (go qo : Option Int) (gg qg : Bool) (hne : qi ≠ gi)
+    (hs : ah[sk]? = some (.skey d k))
+    (hk : ah[k]? = some (.key (.obj gi) (.obj qi))) (hg : ah[gi]? = some (.pj Gv go gg)) (hq : ah[qi]? = some (.pj Qv qo qg)) :
+    arun (apickleObj (G := G) (.obj sk)) Out.ref ah =
+      (ah ++ [.pj Gv go gg, .pj Qv qo qg, .key (.obj ah.length) (.obj (ah.length + 1)), .skey d (ah.length + 2)],
+        .ref (.obj (ah.length + 3))) := by
+  have hq' : (ah ++ [AObj.pj Gv go gg])[qi]? = some (.pj Qv qo qg) := by
+    rw [List.getElem?_append_left (by
+      rcases Nat.lt_or_ge qi ah.length with h | h
+      · exact h
+      · rw [List.getElem?_eq_none h] at hq; cases hq)]
+    exact hq
+  have e' : ¬ (Ref.obj qi = Ref.obj gi) := fun h => hne (Ref.obj.inj h)
+  unfold arun apickleObj
+  simp [acopyKey, acopyPoint, AM.bind_eq, AM.bind, agetHeap_bind_run, AM.getHeap, hs, hk, hg, hq', AM.alloc, AM.pure, hne, e']
+
+/-- **pickle_roundtrip_skey** — the same for a `SigningKey`: the restored object has the same secret multiplier and a restored
+verifying key as in `pickle_roundtrip_key`; by `history_independent` it therefore makes the same signatures (`sign` reads d,
+the generator's value and declared order only) and its verifying key verifies the same signatures. -/
+theorem pickle_roundtrip_skey (_hyp : RepIndep sp HS HA) {h : Heap} {ah : AHeap G} (hi : Inv HS HA h ah) (sk : Nat) (d : Int)
+    (k gi qi : Nat) (Gv Qv : G) (go qo : Option Int) (gg qg : Bool) (hne : qi ≠ gi) (hs : ah[sk]? = some (.skey d k))
+    (hk : ah[k]? = some (.key (.obj gi) (.obj qi))) (hg : ah[gi]? = some (.pj Gv go gg)) (hq : ah[qi]? = some (.pj Qv qo qg)) :
+    (step h (.pickle (.obj sk))).2 = .ref (.obj (h.length + 3)) ∧
+    Inv HS HA (step h (.pickle (.obj sk))).1
+      (ah ++ [.pj Gv go gg, .pj Qv qo qg, .key (.obj h.length) (.obj (h.length + 1)), .skey d (h.length + 2)]) := by
+  obtain ⟨e1, e2⟩ := run_of_outcome (f := Out.ref) (pickleObj_sim (HS := HS) (HA := HA) (.obj sk) h ah hi)
+  have habs := apickle_skey ah sk d k gi qi Gv Qv go qo gg qg hne hs hk hg hq
+  show (run (pickleObj (.obj sk)) Out.ref h).2 = _ ∧ Inv HS HA (run (pickleObj (.obj sk)) Out.ref h).1 _
+  rw [habs] at e1 e2
+  exact ⟨by rw [e1, hi.length], by rw [hi.length]; exact e2⟩
 
 end C19
